@@ -608,9 +608,10 @@ class C15(Property):
         scenarios = {}
         for j in range(rng.randint(1, 3)):
             ids = gen.IdAlloc(rng, 1, 200)
-            net = gen.gen_network(rng, rows=rng.randint(1, 2), cols=rng.randint(1, 2), ids=ids, overlap=False)
+            net = gen.gen_network(rng, rows=rng.randint(1, 2), cols=rng.randint(1, 2), ids=ids, overlap=False,
+                                  many_pts=0.2)
             net.pop("_geom", None)
-            obstacles = [gen.gen_obstacle(rng, ids.take(), net, shape_kinds=("rect", "circ", "poly"))
+            obstacles = [gen.gen_obstacle(rng, ids.take(), net, shape_kinds=("rect", "circ", "poly"), long_horizon=0.15)
                          for _ in range(rng.randint(0, 3))]
             spec = {"dt": 0.1, "network": net, "obstacles": obstacles, "tags": sorted(rng.subset(
                 ["URBAN", "HIGHWAY", "INTERSTATE", "COMFORT"], 0.5, at_least=1)),
